@@ -201,7 +201,10 @@ func c13Gen(t *rapid.T) C13Case {
 		if rapid.IntRange(0, 4).Draw(t, "split") == 0 {
 			split = rapid.IntRange(1, 999).Draw(t, "splitat")
 		}
-		switch weighted(t, "kind", []int{6, 2, 2, 2, 12, 1, 1, 3}) {
+		switch weighted(t, "kind", []int{6, 2, 2, 2, 12, 1, 1, 3, 3}) {
+		case 8:
+			// commands that fail (or do nothing) after looking at - and possibly creating - a key: what they leave behind is probed at the end of the case
+			c.Frames = append(c.Frames, C13Frame{Argv: c06Failing(t), Split: split})
 		case 7:
 			c.Frames = append(c.Frames, c13IntSweep(t)...)
 		case 6:
@@ -608,6 +611,36 @@ func c13Run(c C13Case, st *kit.Stats) error {
 	}
 	if e := died("during the case"); e != nil {
 		return e
+	}
+	// whatever the case left behind is readable: every key that exists answers the read commands of every family
+	// (a value in a state its commands cannot handle shows as a missing reply or a dead process here)
+	if !killedOthers {
+		probe, err := kit.Dial(h.addr)
+		if err == nil {
+			probe.Proto = 0
+			ks, err := probe.DoT(5*time.Second, "KEYS", "*")
+			if err == nil && ks.K == kit.KArr {
+				st.ClassN("keys-probed-after-the-case", len(ks.A))
+				for i, kv := range ks.A {
+					if i >= 12 {
+						break
+					}
+					k := kv.S
+					for _, a := range [][]string{{"HRANDFIELD", k}, {"HRANDFIELD", k, "-3"}, {"HRANDFIELD", k, "3", "WITHVALUES"}, {"HGETALL", k}, {"HSCAN", k, "0"},
+						{"SRANDMEMBER", k}, {"SRANDMEMBER", k, "-3"}, {"SMEMBERS", k}, {"SSCAN", k, "0"}, {"LRANGE", k, "0", "-1"}, {"LINDEX", k, "-1"},
+						{"GETRANGE", k, "0", "-1"}, {"SORT", k, "ALPHA"}, {"DUMP", k}, {"COPY", k, "probe-copy", "REPLACE"}, {"DEL", "probe-copy"}} {
+						if _, err := probe.DoT(3*time.Second, a...); err != nil {
+							suspicious = true
+							if e := died(fmt.Sprintf("on %v (probing the keys the case left behind)", a)); e != nil {
+								return e
+							}
+							return fmt.Errorf("after the case, %v on a key the case left behind got no reply within 3 s: %v", a, err)
+						}
+					}
+				}
+			}
+			probe.Close()
+		}
 	}
 	// other clients are still served and see their own data
 	nonce := fmt.Sprintf("n%d", len(c.Frames)*7919+len(sig))
